@@ -235,6 +235,46 @@ def serveX (f : Facts) (writers : List Text) (tr : Transport) (opts : List Opt) 
 /-- The writers of today's source. -/
 def codeWriters : List Text := Mcp.Gen.mwHandlerWriters
 
+/-! ### overlapping requests of one session
+
+  The legacy SSE server answers the POST with 202 *before* the request is processed: `handleMessage` →
+  `handleRequestMessage` (`go s.processRequestAsync(…)`) → `mcpHandler.handleRequest`. Anything conditional between the
+  acknowledgement and the hand-over — e.g. a bounded token channel taken with a non-blocking `select … default: return` —
+  would make a request that arrives while enough others of its session are still being processed vanish: acknowledged,
+  never in the chain, never answered. The Streamable server runs the chain inside the HTTP handler of the POST
+  (straight-line code up to both `handleRequest` calls). The model is a family indexed by such an admission gate. -/
+
+/-- Is a request admitted to the chain when `inflight` requests of its session are being processed?
+    `gate = none`: unconditional hand-over; `some cap`: a non-blocking gate with `cap` tokens. -/
+def admitted (gate : Option Nat) (inflight : Nat) : Bool :=
+  match gate with
+  | none => true
+  | some cap => inflight < cap
+
+/-- One message that arrives while `inflight` requests of the same session are in flight. A request that is not admitted
+    leaves no trace and gets no answer. -/
+def serveOverlapping (f : Facts) (gate : Option Nat) (tr : Transport) (opts : List (List Stage)) (h : Req → Out)
+    (inflight : Nat) (m : Msg) : List Ev × Option Resp :=
+  if admitted gate inflight then serve f tr opts h m else ([], none)
+
+/-- The shape of `SSEServer.handleRequestMessage` with an unconditional hand-over (the parse guard can only fire for a body
+    that `handleMessage` already parsed as a JSON-RPC message). -/
+def sseDispatchDirect : List Text := [t!"decl", t!"unmarshal-guard", t!"go-dispatch"]
+
+/-- … and of `processRequestAsync` up to `mcpHandler.handleRequest` (the roots-response guard needs a message without method). -/
+def sseProcessDirect : List Text := [t!"detach", t!"roots-response-guard"]
+
+/-- **No request is dropped between its acknowledgement and the chain** (legacy SSE), **nothing conditional on the
+    Streamable POST path**: the regenerated shapes are exactly the straight-line ones. -/
+def dispatchNeverDrops (shape pre : List Text) (ackThenDispatch : Bool) (streamableSelects : Nat) : Bool :=
+  shape == sseDispatchDirect && pre == sseProcessDirect && ackThenDispatch && streamableSelects == 0
+
+/-- The gate of today's source: none when the shapes are the straight-line ones; an unrecognised shape is read in the
+    most pessimistic way (a gate without tokens), so that the differential run cannot agree by accident. -/
+def codeGate (_tr : Transport) : Option Nat :=
+  if dispatchNeverDrops Mcp.Gen.mwSSEDispatchShape Mcp.Gen.mwSSEProcessPrefix Mcp.Gen.mwSSEAckThenDispatch
+      Mcp.Gen.mwStreamableDispatchSelects then none else some 0
+
 /-! ### vocabulary of the theorems -/
 
 def Beh.calls : Beh → Bool
